@@ -83,6 +83,12 @@ with spec_series (f : frm) {struct f} : list fout :=
       | TExit (Wth oid async named m) =>
           FOut code (cs ++ [spec_mgr true (if named then RName else RUnderscore) [] KTop oid async m])
           :: match m with MGen g => spec_series g | _ => [] end
+      | TExitS (Wth oid async named m) cur =>
+          (* an exit stack in the middle of exiting: the stack is exiting, the managers still
+             registered are NOT (spec_mgr unfolds children with ex = false); the frames of the
+             manager being exited follow in the main series *)
+          FOut code (cs ++ [spec_mgr true (if named then RName else RUnderscore) [] KTop oid async m])
+          :: match cur with MGen g => spec_series g | _ => [] end
       end
   end.
 
@@ -101,6 +107,7 @@ with depth_frm (f : frm) : nat :=
                  | TStop => 0
                  | TDeleg g => depth_frm g
                  | TExit (Wth _ _ _ m) => depth_mgr m
+                 | TExitS (Wth _ _ _ m) cur => Nat.max (depth_mgr m) (depth_mgr cur)
                  end)
   end.
 
@@ -117,7 +124,8 @@ with modelled_frm (f : frm) : bool :=
   match f with
   | Frm _ ws t =>
       forallb (fun w => match w with Wth _ _ _ m => modelled_mgr m end) ws &&
-      match t with TStop => true | TDeleg g => modelled_frm g | TExit (Wth _ _ _ m) => modelled_mgr m end
+      match t with TStop => true | TDeleg g => modelled_frm g | TExit (Wth _ _ _ m) => modelled_mgr m
+                 | TExitS (Wth _ _ _ m) cur => modelled_mgr m && modelled_mgr cur end
   end.
 
 Fixpoint nof10_mgr (m : mgr) : bool :=
@@ -130,7 +138,8 @@ with nof10_frm (f : frm) : bool :=
   match f with
   | Frm _ ws t =>
       forallb (fun w => match w with Wth _ _ _ m => nof10_mgr m end) ws &&
-      match t with TStop => true | TDeleg g => nof10_frm g | TExit (Wth _ _ _ m) => nof10_mgr m end
+      match t with TStop => true | TDeleg g => nof10_frm g | TExit (Wth _ _ _ m) => nof10_mgr m
+                 | TExitS (Wth _ _ _ m) cur => nof10_mgr m && nof10_mgr cur end
   end.
 
 (* ================================================================== the classifier *)
@@ -235,7 +244,7 @@ Proof.
           apply in_map_iff. exists w. split; [reflexivity|assumption]. }
         destruct w as [oid a nm m]. apply IHm; assumption. }
       apply le_S_n in Hd.
-      destruct t as [|g|w]; simpl.
+      destruct t as [|g|w|w cur]; simpl.
       * rewrite Hws. reflexivity.
       * rewrite Hws. rewrite IHf; [reflexivity| |assumption|assumption].
         eapply Nat.le_trans; [|exact Hd]. apply Nat.le_max_r.
@@ -243,6 +252,12 @@ Proof.
         assert (Hdm : depth_mgr m <= n) by (eapply Nat.le_trans; [|exact Hd]; apply Nat.le_max_r).
         rewrite (IHm m Hdm Hmt Hnt). destruct m as [|g|cbs]; try reflexivity.
         simpl in Hdm, Hmt, Hnt. rewrite IHf by (assumption || lia). reflexivity.
+      * destruct w as [oid a nm m]. rewrite Hws.
+        apply andb_true_iff in Hmt as [Hmt Hmc]. apply andb_true_iff in Hnt as [Hnt Hnc].
+        assert (Hdm : depth_mgr m <= n) by lia.
+        assert (Hdc : depth_mgr cur <= n) by lia.
+        rewrite (IHm m Hdm Hmt Hnt). destruct cur as [|g|cbs]; try reflexivity.
+        simpl in Hdc, Hmc, Hnc. rewrite IHf by (assumption || lia). reflexivity.
 Qed.
 
 Lemma tree_correct fuel f :
@@ -393,13 +408,18 @@ Proof.
           eapply Nat.le_trans; [|apply Nat.le_max_l]. apply list_max_in.
           apply in_map_iff. exists w. split; [reflexivity|assumption]. }
         destruct w as [oid a nm m]. apply IHm; assumption. }
-      destruct t as [|g|w]; simpl.
+      destruct t as [|g|w|w cur]; simpl.
       * rewrite Hws. reflexivity.
       * rewrite Hws. simpl. apply IHf. eapply Nat.le_trans; [|exact Hd]. apply Nat.le_max_r.
       * destruct w as [oid a nm m].
         assert (Hdm : depth_mgr m <= n) by (eapply Nat.le_trans; [|exact Hd]; apply Nat.le_max_r).
         rewrite forallb_app, Hws. simpl. rewrite (IHm m Hdm). simpl.
         destruct m as [|g|cbs]; try reflexivity. simpl in Hdm. apply IHf. lia.
+      * destruct w as [oid a nm m].
+        assert (Hdm : depth_mgr m <= n) by lia.
+        assert (Hdc : depth_mgr cur <= n) by lia.
+        rewrite forallb_app, Hws. simpl. rewrite (IHm m Hdm). simpl.
+        destruct cur as [|g|cbs]; try reflexivity. simpl in Hdc. apply IHf. lia.
 Qed.
 
 Lemma tree_fuel_suffices fuel f : depth_frm f <= fuel -> forallb fuel_free_f (series fuel f) = true.
@@ -433,3 +453,42 @@ Proof. reflexivity. Qed.
 Example ex_seq_hyps :
   match ex_stack with MStack cbs => seq_modelled cbs = true /\ seq_nof10 cbs = true | _ => False end.
 Proof. split; reflexivity. Qed.
+
+(* ================================================================== an exit stack in the middle of exiting *)
+(* The stack's own context is exiting; every callback still registered yields a child that is NOT
+   exiting, so a generator-based manager among them keeps its inner_stack (all sequences, all
+   subtrees; only the registration hypotheses of children_exact). *)
+Lemma series_exits n code ws oid a nm m cur :
+  series (S n) (Frm code ws (TExitS (Wth oid a nm m) cur))
+  = FOut code (map (fun w => match w with Wth _ _ named _ =>
+                      fill n false (if named then RName else RUnderscore) [] KTop w end) ws
+               ++ [fill n true (if nm then RName else RUnderscore) [] KTop (Wth oid a nm m)])
+    :: match cur with MGen g => series n g | _ => [] end.
+Proof. reflexivity. Qed.
+
+Lemma exiting_stack_children n cbs oid a nm code ws cur :
+  seq_modelled cbs = true -> seq_nof10 cbs = true ->
+  exists cs kids rest,
+    series (S (S (S n))) (Frm code ws (TExitS (Wth oid a nm (MStack cbs)) cur))
+      = FOut code (cs ++ [COut oid a true None kids KTop]) :: rest /\
+    rest = match cur with MGen g => series (S (S n)) g | _ => [] end /\
+    length kids = length cbs /\
+    forall j k falsy x av oself ocb g,
+      nth_error cbs j = Some (Cb k falsy x av oself ocb (MGen g)) -> has_receiver k = true ->
+      exists info,
+        nth_error kids j = Some (COut oself (spec_async k) false (Some (series n g)) [] info).
+Proof.
+  intros Hm Hn.
+  destruct (children_exact n cbs true (if nm then RName else RUnderscore) [] KTop oid a nm Hm Hn)
+    as [kids [Hfill [Hlen _]]].
+  do 3 eexists. split; [rewrite series_exits, Hfill; reflexivity|]. split; [reflexivity|].
+  split; [exact Hlen|].
+  intros j k falsy x av oself ocb g Hj Hr.
+  simpl in Hfill. injection Hfill as Hk. subst kids.
+  rewrite (mapi_nth _ _ _ _ _ Hj). simpl.
+  unfold seq_modelled, seq_nof10 in *. rewrite forallb_forall in Hm, Hn.
+  apply nth_error_In in Hj. specialize (Hm _ Hj). specialize (Hn _ Hj). simpl in Hm, Hn.
+  apply avec_eqb_eq in Hm. subst av. apply negb_true_iff in Hn.
+  rewrite (classify_modelled k falsy x Hn), sync_modelled, negb_involutive.
+  unfold spec_cls, spec_sel; simpl. rewrite Hr. simpl. eexists. reflexivity.
+Qed.
